@@ -31,7 +31,8 @@ def main():
     demo_fails = "(expected non-zero): 0" not in out
     confirmed = tests_ok and demo_fails and clean.returncode == 0
     caught = {ln.split()[1]: ("CAUGHT" in ln) for ln in out.splitlines() if ln.startswith("check ")}
-    dest = os.path.join(HERE, "seeded", f"{prop}-{k}")
+    suffix = os.environ.get("SEED_SUFFIX", "")
+    dest = os.path.join(HERE, "seeded", f"{prop}-{k}{suffix}")
     if confirmed:
         os.makedirs(dest, exist_ok=True)
         shutil.copy(patch, os.path.join(dest, "patch.diff"))
@@ -42,11 +43,11 @@ def main():
             "origin": "independent sub-agent given only the property text and its own scratch worktree",
             "needs_to_manifest": note_text.strip()[:1500],
             "confirmed": {"repo_tests_with_patch": "432 passed", "demo_with_patch": "fails", "demo_without_patch": "passes"},
-            "ran": [f"tools/try_seed.py seeded/{prop}-{k}/patch.diff {props} --demo seeded/{prop}-{k}/demo.py"],
+            "ran": [f"tools/try_seed.py seeded/{prop}-{k}{suffix}/patch.diff {props} --demo seeded/{prop}-{k}{suffix}/demo.py"],
             "check_results_quick_seed0": {p: ("caught" if c else "missed") for p, c in caught.items()},
         }
         json.dump(meta, open(os.path.join(dest, "meta.json"), "w"), indent=1)
-        print(f"   -> kept as seeded/{prop}-{k}; {meta['check_results_quick_seed0']}")
+        print(f"   -> kept as seeded/{prop}-{k}{suffix}; {meta['check_results_quick_seed0']}")
     else:
         print(f"   -> NOT confirmed (tests_ok={tests_ok}, demo_fails={demo_fails}, clean_demo={clean.returncode})")
 
